@@ -114,6 +114,18 @@ def misc(pr):
     return out
 
 
+def canaries(pr):
+    """Deliberately wrong bindings: the same writer rule has to reject them."""
+    def swapped(pr):
+        f, w = A.writer_for(pr.tree, _fr.G + "__generate_in_table", "computed_data.in_transaction_set")
+        vcs = A.writer_vcs("canary", _fr.REL, w, "computed_data.in_transaction_set", {7: "ELT.fiat_fee", 9: "ELT.crypto_in"})
+        return [v for v in vcs if "W4" in v.label]
+
+    def wrong_collection(pr):
+        f, w = A.writer_for(pr.tree, _fr.G + "__generate_out_table", "computed_data.in_transaction_set")
+        return [A.bvc("canary", "writer", "out_table_iterates_the_in_set", w is not None, _fr.REL)]
+    return [("in_table_columns_7_and_9_swapped_must_fail", swapped), ("out_table_over_in_set_must_fail", wrong_collection)]
+
 MANIFEST_ENTRY = {
     "category": "other",
     "text": ("Table-writer contracts for the eight writer loops of rp2_full_report.py (iterated collection, no skipped element, one row per element, every "
